@@ -25,7 +25,7 @@ def configs(tier):
         Config(front="wsgi", backend="bare", prefix="/dav/", features=feats, props=props, bodies=rb, oracles={"C01"}),
     ]
     tw = dict(names={"cal": ["a.ics", "b.ics"], "ab": ["a.vcf"], "c2": []}, bodies={"cal": ["X", "X2"], "ab": ["K"], "c2": []}, props=props, oracles={"C01"})
-    out.append(Config(front="wsgi", backend="tree", prefix="/", features={"two-workers", "restart", "head"}, label="tree/wsgi+two-workers", **tw))
+    out.append(Config(front="wsgi", backend="tree", prefix="/", features={"two-workers", "restart", "head", "recreate"}, label="tree/wsgi+two-workers", **tw))
     if tier == "thorough":
         out.append(Config(front="wsgi", backend="bare", prefix="/", features={"two-workers", "restart", "head", "recreate"}, label="bare/wsgi+two-workers", **tw))
     # slow uploads through the real socket (the body arrives in two pieces) of files that are stored byte for byte
